@@ -47,6 +47,14 @@ def run(ctx, proof):
     for c in pool5:
         cases.append(dict(c, comp="sam:0", r=0))
 
+    # beyond 8 players (table-size / dtype limits of the memoised structure shared by all sam_apx computers)
+    for (n9, cnt) in ([(9, 2)] if ctx.quick else [(9, 8), (10, 2)]):
+        for _ in range(cnt):
+            v9, src9 = campaign.repo_generator_game(rng, n9, campaign.SAM_GENS)
+            K9 = sorted(games.minimal_ids(n9) + rng.sample(games.optional_ids(n9), rng.choice([0, 0, 3, 8])))
+            r9 = rng.choice([0, 1, 1, 2])
+            cases.append({"comp": f"sam:{r9}", "r": r9, "n": n9, "v": v9, "K": K9, "stale": None, "stream": "float", "src": src9})
+
     def oracle(c, tab):
         if "r" not in c:
             c = dict(c, r=int(c["comp"].split(":")[1]))
